@@ -94,6 +94,25 @@ def _eval_interval(r, iv, ev):
             x = meet(x, iv.get(st, (l, ()), "i32"))
             if x is None:
                 return None
+    # bounds stated through named / composed conditions (`let is_mating = eval >= K; if is_mating {..}`):
+    # the comparisons known on entry to the site, whatever boolean carried them there
+    from .search import order_facts
+    holds = {("arg", ev)} | {("var", l) for l in range(len(r.body.locals)) if l != ev and r.body.local_ty(l) == "i32" and r.ex.local(l, r.loc) == ("arg", ev)}
+
+    def is_ev(e):
+        e = strip_refs(e)
+        return e == ("arg", ev) or (e[0] == "var" and ("var", e[1]) in holds)
+
+    def const(e):
+        e = strip_refs(e)
+        return e[1] if e[0] == "const" and isinstance(e[1], int) and not isinstance(e[1], bool) else None
+    for op, a, c in order_facts(r.body, r.ex, r.loc[0]):
+        if is_ev(a) and const(c) is not None:
+            x = meet(x, (const(c) + (1 if op == "Gt" else 0), 2**31 - 1))
+        elif is_ev(c) and const(a) is not None:
+            x = meet(x, (-2**31, const(a) - (1 if op == "Gt" else 0)))
+        if x is None:
+            return None
     return x
 
 
@@ -141,7 +160,9 @@ def r18_4(ctx):
             windows.add(w)
             okw = 0 < w < 1000
             ctx.ob("send_search_info:mate%s-arm:window" % side, okw, b.where(loc), "mate%s arm entered for eval in [%s, %s] (window %s)" % (side, rg[0], rg[1], w))
-            # R11.3: the printed N over the window
+            # R11.3: the printed N over the window (only a sane window is enumerated)
+            if not okw:
+                continue
             if val is None or val == ("arg", ev) or ("arg", ev) not in set(subexprs(val)):
                 ctx.ob("send_search_info:mate%s-arm:N-expression" % side, False, b.where(loc), "the value printed after `score mate` (`%s`) is not a mate distance computed from the evaluation" % (show_expr(val, r.body)[:60] if val else "?"), reason="shape-not-recognised")
                 continue
